@@ -35,6 +35,36 @@ Proof.
 Qed.
 Print Assumptions C19_search_terminates.
 
+(* 1'. The same bound written out as in the property text: the number of requests (the current
+       state file included) is at most
+         2 + 2 * ceil(log2 (sequence range))  +  number of missing state files in the range,
+       i.e. logarithmic in the sequence range plus the missing files that may have to be
+       stepped over.  [missing st min k] counts the n in min .. min+k-1 with st n = None. *)
+Theorem C19_request_bound_explicit : forall st min c t fuel,
+  (enough_fuel min c <= fuel)%nat ->
+  min <= fst c -> st (fst c) = Some (snd c) -> mono st min (fst c) ->
+  exists s tr, search fuel st min (Some c) t = Some (Found s, tr) /\
+    Z.of_nat (List.length tr) <=
+      2 + 2 * Z.log2_up (fst c - min + 1) + missing st min (Z.to_nat (fst c - min)).
+Proof. exact C19_search_terminates. Qed.
+Print Assumptions C19_request_bound_explicit.
+
+(* with no file missing the bound is purely logarithmic *)
+Theorem C19_request_bound_no_gaps : forall st min c t fuel,
+  (enough_fuel min c <= fuel)%nat ->
+  min <= fst c -> st (fst c) = Some (snd c) -> mono st min (fst c) ->
+  (forall n, min <= n < fst c -> st n <> None) ->
+  exists s tr, search fuel st min (Some c) t = Some (Found s, tr) /\
+    Z.of_nat (List.length tr) <= 2 + 2 * Z.log2_up (fst c - min + 1).
+Proof.
+  intros st min c t fuel Hf Hm Hc Hmono Hall.
+  destruct (C19_search_terminates st min c t fuel Hf Hm Hc Hmono) as (s & tr & H1 & H2).
+  exists s, tr. split; [exact H1|]. unfold request_bound in H2.
+  rewrite (missing_none st (Z.to_nat (fst c - min)) min) in H2; [lia|].
+  intros n Hn. apply Hall. lia.
+Qed.
+Print Assumptions C19_request_bound_no_gaps.
+
 (* 2. The answer is the first available state written at or after t — present, not before t,
       and every present state below it is before t — or the newest state when t is later than
       all of them. *)
@@ -183,6 +213,18 @@ Example ex_run_after : search (enough_fuel 1 (20, 200)) ex_st 1 (Some (20, 200))
 Proof. vm_compute. reflexivity. Qed.
 
 Example ex_bound : request_bound ex_st 1 (20, 200) = 28.
+Proof. vm_compute. reflexivity. Qed.
+
+(* the instance of the explicit bound for that directory: 19 requests were made (ex_run_between),
+   2 + 2 * log2_up 20 + 16 missing files = 2 + 10 + 16 = 28 are allowed *)
+Example ex_bound_explicit :
+  Z.log2_up (20 - 1 + 1) = 5 /\ missing ex_st 1 (Z.to_nat (20 - 1)) = 16 /\
+  Z.of_nat (List.length [0; 1; 10; 15; 17; 18; 19; 10; 9; 8; 7; 6; 5; 4; 15; 14; 13; 12; 11]) = 19 /\
+  19 <= 2 + 2 * 5 + 16.
+Proof. vm_compute. repeat split; discriminate. Qed.
+
+(* a complete directory of a million files: at most 42 requests *)
+Example ex_bound_million : 2 + 2 * Z.log2_up (1000000 - 1 + 1) = 42.
 Proof. vm_compute. reflexivity. Qed.
 
 Example ex_url : state_url 3 "https://planet.osm.org" 2008004
